@@ -30,7 +30,13 @@
    PARTIAL, still decided by the correspondence stream + oracle only: string attributes that are WRAPPED over
    several lines (the re-parsed value then is the text with every run of blanks/newlines turned into one blank,
    not the value: C19_example_wrapped_text_differs; the skeleton still agrees there), .type / .call /
-   .sequential_format / Auto-valued attributes, dotted names at levels >= 1, deprecated definitions. *)
+   .sequential_format / Auto-valued attributes.
+   Larger domains (end of the file, Proofs/ShowReparseFiltered.v), again for ANY expert filter e: level 3 with
+   deprecated definitions (stree_ok_d: C19_filtered_text_parses_level3_deprecated), level 3 with dotted names and
+   deprecated definitions (sdtree_ok: C19_filtered_text_parses_level3_dotted), every level >= 1 with dotted names
+   (ldtree_ok: C19_filtered_text_parses_levels_dotted, _level2_dotted); pruning stays in each of these domains (a
+   prefix scope whose only child is hidden disappears with it; a kept child keeps its header, so the prefix scope
+   still has one child carrying merge_names: C19_pruning_stays_in_the_dotted_domains). *)
 From Coq Require Import List Ascii String ZArith Bool.
 From Phil Require Import Base Tokenizer Tree Parser Show ShowProofs ShowPrefix ShowErase WordsRoundtrip TreeRoundtrip ShowReparse ShowReparseAttrs ParserShape.
 Import ListNotations.
@@ -207,3 +213,68 @@ Example C19_example_deprecated_levels_differ :
   /\ as_str sa_dep [] None 2 None = Ok (s_ "y = 2
 ").
 Proof. exact deprecated_hidden_at_level2. Qed.
+
+(* ---------- the larger domains: deprecated definitions (level 3), dotted names (level 3 and every level >= 1) *)
+From Phil Require Import ShowReparseDeprecated ShowReparseFiltered.
+
+Theorem C19_filtered_text_parses_level3_deprecated : forall o l e w text,
+  forallb (stree_ok_d (width_of w) []) l = true ->
+  as_str l [] e 3 w = Ok text ->
+  exists l', parse o text = Ok l' /\ map erase_obj l' = map erase3 (shown e l).
+Proof. exact filtered_text_parses_level3_deprecated. Qed.
+Print Assumptions C19_filtered_text_parses_level3_deprecated.
+
+Theorem C19_filtered_text_parses_level3_dotted : forall o l e w text,
+  forallb (sdtree_ok (width_of w) [] []) l = true ->
+  as_str l [] e 3 w = Ok text ->
+  exists l', parse o text = Ok l' /\ map erase_obj l' = map erase3 (shown e l).
+Proof. exact filtered_text_parses_level3_dotted. Qed.
+Print Assumptions C19_filtered_text_parses_level3_dotted.
+
+Theorem C19_filtered_text_parses_levels_dotted : forall lvl o l e w text, (0 <? lvl)%Z = true ->
+  forallb (ldtree_ok (width_of w) [] []) l = true ->
+  as_str l [] e lvl w = Ok text ->
+  exists l', parse o text = Ok l' /\ map erase_obj l' = map (eraseL lvl) (shown e l).
+Proof. exact filtered_text_parses_levels_dotted. Qed.
+Print Assumptions C19_filtered_text_parses_levels_dotted.
+
+Theorem C19_filtered_text_parses_level2_dotted : forall o l e w text,
+  forallb (ldtree_ok (width_of w) [] []) l = true ->
+  as_str l [] e 2 w = Ok text ->
+  exists l', parse o text = Ok l' /\ map erase_obj l' = map erase3 (shown e l).
+Proof. exact filtered_text_parses_level2_dotted. Qed.
+Print Assumptions C19_filtered_text_parses_level2_dotted.
+
+Theorem C19_pruning_stays_in_the_deprecated_domain : forall w p e l,
+  forallb (stree_ok_d w p) l = true -> forallb (stree_ok_d w p) (shown e l) = true.
+Proof. exact shown_keeps_stree_ok_d. Qed.
+Print Assumptions C19_pruning_stays_in_the_deprecated_domain.
+
+Theorem C19_pruning_stays_in_the_dotted_domains : forall w p e l,
+  (forallb (sdtree_ok w [] p) l = true -> forallb (sdtree_ok w [] p) (shown e l) = true)
+  /\ (forallb (ldtree_ok w [] p) l = true -> forallb (ldtree_ok w [] p) (shown e l) = true).
+Proof. exact (fun w p e l => conj (shown_keeps_sdtree_ok w p e l) (shown_keeps_ldtree_ok w p e l)). Qed.
+Print Assumptions C19_pruning_stays_in_the_dotted_domains.
+
+(* non-vacuity: a.b.x deprecated with expert_level 2, a.c.y, p.q.z with expert_level 2, k deprecated with
+   expert_level 1, m.n with a help text; printed with e = Some 1 (and Some 0, None) at level 3 *)
+Example C19_example_filtered_deprecated_dotted :
+  map erase_obj (fl_reparsed (Some 1%Z)) = map erase3 (prunes 1 fl_tree)
+  /\ map erase_obj (fl_reparsed (Some 0%Z)) = map erase3 (prunes 0 fl_tree)
+  /\ map erase_obj (fl_reparsed None) = map erase3 fl_tree
+  /\ map erase_all (prunes 1 fl_tree) <> map erase_all fl_tree
+  /\ map erase_all (prunes 0 fl_tree) <> map erase_all (prunes 1 fl_tree)
+  /\ length (prunes 0 fl_tree) = 2.
+Proof. exact fl_roundtrips. Qed.
+Example C19_example_filtered_domain :
+  forallb (sdtree_ok default_width [] []) fl_tree = true /\ forallb (stree_ok_d default_width []) fl_tree = false
+  /\ forallb (ldtree_ok default_width [] []) fl_tree = false
+  /\ length fl_tree = 5 /\ length (prunes 1 fl_tree) = 3
+  /\ forallb (sdtree_ok default_width [] []) (prunes 1 fl_tree) = true.
+Proof. exact fl_in_domain. Qed.
+Example C19_example_filtered_dotted_levels :
+  map erase_obj (dot_filtered2 1 (Some 1%Z)) = map (eraseL 1) (prunes 1 dot_tree2)
+  /\ map erase_obj (dot_filtered2 2 (Some 1%Z)) = map erase3 (prunes 1 dot_tree2)
+  /\ map erase_all (prunes 1 dot_tree2) <> map erase_all dot_tree2
+  /\ forallb (ldtree_ok default_width [] []) (prunes 1 dot_tree2) = true.
+Proof. exact dot_levels_filtered. Qed.
